@@ -20,7 +20,7 @@ TRUSTED = ['desugaring of `?` (Try::branch / FromResidual::from_residual) propag
            'io::Write::write_all turns a zero-length write into Err(WriteZero)']
 ASSUMPTIONS = ['the Vec<u8>-only conveniences (memory, into_fst, into_map, into_set, Default) are outside the property: their sink cannot fail']
 
-RESULT_TY = re.compile(r"^std::result::Result<.*(std::io::Error|error::Error)>$")
+RESULT_TY = re.compile(r"^std::result::Result<.*(std::io::Error|error::Error|fst::Error|anyhow::Error)>$")
 
 
 def in_scope(lib):
